@@ -185,6 +185,9 @@ func (g *gen) newCase() *wc.Case {
 		} else {
 			t = g.tree(3, 14)
 		}
+		for try := 0; g.mode == "subdir" && try < 3 && !hasSubdir(t); try++ {
+			t = g.tree(3, 14) // a tree without any sub-directory only yields the trivial pair d = ".": redraw a few times
+		}
 		c.Roots = append(c.Roots, wc.Root{Tree: t, F: wc.Faults{Open: map[string]bool{}, Stat: map[string]bool{}, FileStat: map[string]bool{}, Read: map[string]map[int]bool{}}})
 		collect(t, &allDirs, &allFiles)
 	}
@@ -283,6 +286,16 @@ func (g *gen) newCase() *wc.Case {
 		if g.mode == "limits" {
 			// cancellation from inside the k-th Extract, k up to (the generator's estimate of) the number of Extract calls a
 			// full scan makes, + 2: every depth of the walk is a cancellation point, and some k lie beyond the last call
+			cancelling := r.Intn(3) == 0
+			if cancelling && r.Intn(4) != 0 { // a skipped scan root makes every cancellation point unreachable: mostly avoid it here
+				var sk []string
+				for _, d := range c.Skip {
+					if d != "." {
+						sk = append(sk, d)
+					}
+				}
+				c.Skip = sk
+			}
 			owed := len(c.Req)
 			if !usePaths {
 				owed = 0
@@ -292,7 +305,7 @@ func (g *gen) newCase() *wc.Case {
 					}
 				}
 			}
-			if r.Intn(3) == 0 {
+			if cancelling {
 				c.CA = 1 + r.Intn(owed+2)
 			}
 			c.CB = r.Intn(25) == 0
@@ -321,6 +334,15 @@ func (g *gen) newCase() *wc.Case {
 		c.CB = r.Intn(25) == 0
 	}
 	return c
+}
+
+func hasSubdir(t *wc.Node) bool {
+	for _, k := range t.Kids {
+		if k.Kind == 'd' {
+			return true
+		}
+	}
+	return false
 }
 
 // belowAny: p lies below (or is) one of the listed directories.
@@ -492,7 +514,8 @@ func (g *gen) enumFaults(c *wc.Case, all bool, out *hx.Out) int {
 	n := 0
 	emit := func(kind string, plan ...site) {
 		v := withPlan(c, plan...)
-		out.Emit(v.Line(), fmt.Sprintf("%s nsites=%d plan=%s", runCase(v), len(ss), kind))
+		reply := runCase(v) // before Line(): runCase fills the regexp / glob match sets the case line carries
+		out.Emit(v.Line(), fmt.Sprintf("%s nsites=%d plan=%s", reply, len(ss), kind))
 		n++
 	}
 	emit("none")
@@ -619,10 +642,12 @@ func main() {
 				g.errKind(c)
 			}
 			d := g.pickDir(c.Roots[0].Tree)
-			out.Emit(c.Line(), fmt.Sprintf("%s grp=%d role=whole", runCase(c), i))
+			reply := runCase(c) // before Line(): runCase fills the regexp / glob match sets the case line carries
+			out.Emit(c.Line(), fmt.Sprintf("%s grp=%d role=whole", reply, i))
 			v := *c
 			v.Paths = []string{d}
-			out.Emit(v.Line(), fmt.Sprintf("%s grp=%d role=sub sd=%s", runCase(&v), i, wc.HexPath(d)))
+			reply = runCase(&v)
+			out.Emit(v.Line(), fmt.Sprintf("%s grp=%d role=sub sd=%s", reply, i, wc.HexPath(d)))
 			continue
 		}
 		if *mode == "perm" {
